@@ -219,7 +219,15 @@ def run(ctx):
     for k, (c, msg) in sorted(bad.items()):
         ctx.violation(k, f"{c}: {msg}", {"case": c})
     # ---- T -----------------------------------------------------------------------------
-    cases = runbank.base_cases(ctx) + ion_constructs(ctx, cfgt) + twin_ion_constructs(ctx) + like_charge_constructs(ctx) + runbank.kit_cases(ctx, every=1 if ctx.thorough() else 5)
+    coupled_starts = []
+    for src, resn in (("1FTJ-Chain-A", "CYS"), ("1HPX", "CYS"), ("3SGB", "ASP"), ("1HPX", "HIS")):
+        blocks = [b for b in C.residue_blocks(C.atom_lines(src)) if b[0] != "TER" and b[1][0].startswith("ATOM")]
+        blocks = [b for b in blocks if b[0][0] == blocks[0][0][0]]
+        ks = [k for k, b in enumerate(blocks) if b[0][3] == resn and 0 < k < len(blocks) - 20]
+        for k in ks[:1 if not ctx.thorough() else 3]:
+            coupled_starts.append((f"{src}-from-{resn}{blocks[k][0][1].strip()}",
+                                   C.join([ln for b in blocks[k:(None if resn == "CYS" else k + 45)] for ln in b[1] if ln[16] in " A"] + [C.TER]), []))
+    cases = runbank.base_cases(ctx) + coupled_starts + ion_constructs(ctx, cfgt) + twin_ion_constructs(ctx) + like_charge_constructs(ctx) + runbank.kit_cases(ctx, every=1 if ctx.thorough() else 5)
     # parameter files that change the desolvation model but none of the configured bounds
     from . import c02
     variants = {"allow005": {"desolvationAllowance": 0.05}, "allow015": {"desolvationAllowance": 0.15},
